@@ -59,9 +59,9 @@ Gather(rs, Build(_)) ==
 Then(r, Build(_)) == IF IsOk(r) THEN Ok(Build(r.ok)) ELSE r
 
 (* ---- integers as decimal strings ---- *)
-IntOrder == << "-9223372036854775808", "-2147483649", "-2147483648", "-32769", "-32768", "-129", "-128", "-7", "-1", "0", "1", "2", "3", "5", "7", "9",
+IntOrder == << "-9223372036854775808", "-4611686293305294849", "-2147483649", "-2147483648", "-32769", "-32768", "-129", "-128", "-7", "-1", "0", "1", "2", "3", "5", "7", "9",
                "65", "127", "128", "255", "256", "300", "32767", "32768", "65535", "65536", "2147483647", "2147483648", "4294967295", "4294967296",
-               "9223372036854775807", "9223372036854775808", "18446744073709551615" >>
+               "9223372036854775807", "9223372036854775808", "9223372586610589697", "18446744073709551615" >>
 Rank(s) == CHOOSE i \in DOMAIN IntOrder : IntOrder[i] = s
 KnownInt(s) == \E i \in DOMAIN IntOrder : IntOrder[i] = s
 Lo(w) == CASE w = "i8" -> "-128" [] w = "i16" -> "-32768" [] w = "i32" -> "-2147483648" [] w = "i64" -> "-9223372036854775808" [] OTHER -> "0"
@@ -77,8 +77,13 @@ IsIntV(v) == v.t = "num" /\ "int" \in DOMAIN v
 AsF64(v) == IF ~IsIntV(v) THEN Ok(v)
             ELSE IF IsSmall(v.int) /\ SmallVal(v.int) >= -65536 /\ SmallVal(v.int) <= 65536 THEN Ok([t |-> "num", p |-> SmallVal(v.int), q |-> 1]) ELSE Open
 
+(* a number read as f32: halves and quarters and small integers are exact there; everything else is rounded to single precision, which this
+   module does not compute (left open: the library's answer must still be serde_json's -- one rounding, from the integer or the double) *)
+AsF32(v) == IF ~IsIntV(v) THEN (IF "p" \in DOMAIN v /\ v.q \in {1, 2, 4} /\ v.p >= -65536 /\ v.p <= 65536 /\ "u" \notin DOMAIN v /\ "e" \notin DOMAIN v THEN Ok(v) ELSE Open)
+            ELSE IF IsSmall(v.int) /\ SmallVal(v.int) >= -65536 /\ SmallVal(v.int) <= 65536 THEN Ok([t |-> "num", p |-> SmallVal(v.int), q |-> 1]) ELSE Open
+
 (* ---- types ---- *)
-TBool == [k |-> "bool"]   TInt(w) == [k |-> "int", w |-> w]   TF64 == [k |-> "f64"]   TChar == [k |-> "char"]   TString == [k |-> "string"]
+TBool == [k |-> "bool"]   TInt(w) == [k |-> "int", w |-> w]   TF64 == [k |-> "f64"]   TF32 == [k |-> "f32"]   TChar == [k |-> "char"]   TString == [k |-> "string"]
 TUnit == [k |-> "unit"]                                    \* () and unit structs
 TOpt(x) == [k |-> "option", x |-> x]
 TNew(x) == [k |-> "newtype", x |-> x]                        \* newtype structs, Box
@@ -145,6 +150,7 @@ Dec(T, v) ==
   CASE T.k = "bool" -> IF v.t = "bool" THEN Ok(v) ELSE Err
     [] T.k = "int" -> IF IsIntV(v) /\ InRange(v.int, T.w) THEN Ok(v) ELSE Err                 \* a float, even a whole one, is not an integer
     [] T.k = "f64" -> IF v.t # "num" THEN Err ELSE AsF64(v)
+    [] T.k = "f32" -> IF v.t # "num" THEN Err ELSE AsF32(v)
     [] T.k = "char" -> IF v.t = "str" /\ Len(v.s) = 1 THEN Ok(v) ELSE Err
     [] T.k = "string" -> IF v.t = "str" THEN Ok(v) ELSE Err
     [] T.k = "unit" -> IF v.t = "null" THEN Ok(JNull) ELSE Err
@@ -280,6 +286,7 @@ AnyL1(T, v, D) ==
          [] v.t = "num" ->                                                               \* Number::deserialize_any: visit_u64 / visit_i64 / visit_f64
               (CASE T.k = "int" -> IF IsIntV(v) /\ InRange(v.int, T.w) THEN Ok(v) ELSE Err
                  [] T.k = "f64" -> AsF64(v)
+                 [] T.k = "f32" -> AsF32(v)
                  [] T.k = "untagged" -> Dec(Buffered(T, D), v)
                  [] OTHER -> Err)
          [] v.t = "str" ->                                                               \* visit_string
@@ -347,7 +354,7 @@ Zoo == [ bool |-> TBool, i8 |-> TInt("i8"), u8 |-> TInt("u8"), i32 |-> I32, i64 
          MapColorI32 |-> TMap(Color, I32), Flat |-> TFlat(<<Fld(nId, I32)>>, I32), VecUserId |-> TSeq(UserId), ArrI32x2 |-> TTup(<<I32, I32>>),
          BoxPoint |-> TNew(Point), TupUserIdI32 |-> TTup(<<UserId, I32>>), MapStringOptPoint |-> TMap(TString, TOpt(Point)),
          IT |-> IT, AT |-> AT, UT |-> UT, FirstEntry |-> TFirstEntry(I32), VecIT |-> TSeq(IT),
-         Strict |-> Strict, VecStrict |-> TSeq(Strict), ITU |-> ITU, UTU |-> UTU, FlatU |-> FlatU, Level |-> Level, VecLevel |-> TSeq(Level) ]
+         Strict |-> Strict, VecStrict |-> TSeq(Strict), ITU |-> ITU, UTU |-> UTU, FlatU |-> FlatU, Level |-> Level, VecLevel |-> TSeq(Level), f32 |-> TF32 ]
 ZooNames == DOMAIN Zoo
 
 (***************************************************************************)
@@ -368,6 +375,7 @@ Wit(T) ==
   CASE T.k = "bool" -> {JTrue}
     [] T.k = "int" -> {N("1"), N(Hi(T.w)), N(Lo(T.w))}
     [] T.k = "f64" -> {JNum(3, 2), N("3"), JNum(3, 1)}
+    [] T.k = "f32" -> {JNum(3, 2), N("3"), JNum(1, 4), N("9223372586610589697"), N("-4611686293305294849"), N("18446744073709551615"), N("2147483647")}
     [] T.k = "char" -> {JStr(<<97>>), JStr(<<233>>)}
     [] T.k = "string" -> {JStr(<<>>), JStr(<<97, 98>>)}
     [] T.k \in {"unit", "unitc"} -> {JNull}
